@@ -116,7 +116,7 @@ def _iter_events(seed):
         genes, fcs, vcs, starts = [], [], [], []
         for k in range(n):
             s = rnd.randrange(0, 12) * 5
-            e = s + rnd.randrange(2, 30)
+            e = s + rnd.choice([rnd.randrange(2, 30), rnd.randrange(2, 30), 90])  # some members contain later ones
             r = rnd.random()
             if r < 0.45:
                 genes.append(GeneInterval([mk_tx([[s, e]], rnd.choice("+-"), None, None, transcript_id="g%d" % k)]))
@@ -133,6 +133,9 @@ def _iter_events(seed):
             it2 = [next(i for i, y in enumerate(order) if y is x) + 1 for x in coll.iter_children()]
             ev.append(["iter", starts, it2])
         ev.append(["iter", starts, it])
+        # bounds of a collection built without bounds and without a parent: those of its members
+        if hasattr(coll, "start") and hasattr(coll, "end"):
+            ev.append(["collspan", [[x.start, x.end] for x in order], coll.start, coll.end])
         # the view without the variant collections, and the per-type accessors: same order, nothing lost
         nv = genes + fcs
         if nv:
